@@ -30,9 +30,16 @@ mod verif_standins {
             let com = Message::new(m).commit(&p, bf);
             assert!(com.to_element() == reference(&p, &m, *r), "STANDIN pedersen.Commitment::new: not h^r * prod g_i^m_i, N={} m={:?} r={:?}", N, m, r);
             assert!(com.verify_opening(&p, bf, &Message::new(m)), "STANDIN pedersen.Commitment::verify_opening: original opening rejected, N={} m={:?} r={:?}", N, m, r);
-            // single-coordinate and blinding-factor perturbations
+            // single-coordinate and blinding-factor perturbations (every coordinate, also inside a run of zero entries)
+            for j in 0..N {
+                let mut mj = m; mj[j] = mj[j] + Scalar::one();
+                assert!(!com.verify_opening(&p, bf, &Message::new(mj)), "STANDIN pedersen.Commitment::verify_opening: opening perturbed in coordinate {} accepted, N={} m={:?} r={:?}", j, N, m, r);
+            }
+            // the negated opening opens the negated commitment, not this one (unless the commitment is the identity)
+            let mut mn = m; for j in 0..N { mn[j] = -mn[j]; }
+            let neg_accept = com.verify_opening(&p, BlindingFactor::from_scalar(-*r), &Message::new(mn));
+            assert_eq!(neg_accept, reference(&p, &mn, -*r) == reference(&p, &m, *r), "STANDIN pedersen.Commitment::verify_opening: a commitment and its negation are confused, N={} m={:?} r={:?}", N, m, r);
             let mut m2 = m; m2[pos] = m2[pos] + Scalar::one();
-            assert!(!com.verify_opening(&p, bf, &Message::new(m2)), "STANDIN pedersen.Commitment::verify_opening: perturbed coordinate accepted");
             assert!(!com.verify_opening(&p, BlindingFactor::from_scalar(*r + Scalar::one()), &Message::new(m)), "STANDIN pedersen.Commitment::verify_opening: perturbed blinding factor accepted");
             // exactness against the reference on another opening
             let other = Commitment(reference(&p, &m2, *r));
@@ -53,6 +60,12 @@ mod verif_standins {
         let p = PedersenParameters::<G, N>::new(&mut rng);
         let q = PedersenParameters::<G, N>::new(&mut rng);
         let chal = |x: &PedersenParameters<G, N>| ChallengeBuilder::new().with(x).finish().to_scalar();
+        // generated parameters: h and the g_i are pairwise different, non-identity elements (independent draws)
+        for i in 0..N {
+            assert!(p.gs()[i] != *p.h(), "STANDIN PedersenParameters::new: generator g[{}] equals h - the commitment is not binding (N = {})", i, N);
+            assert!(!bool::from(p.gs()[i].is_identity()) && !bool::from(p.h().is_identity()), "STANDIN PedersenParameters::new: identity generator");
+            for j in 0..i { assert!(p.gs()[i] != p.gs()[j], "STANDIN PedersenParameters::new: generators g[{}] and g[{}] coincide (N = {})", j, i, N); }
+        }
         let base = chal(&p);
         assert_eq!(base, chal(&PedersenParameters::from_generators(*p.h(), *p.gs())), "STANDIN pedersen parameters challenge: not deterministic");
         assert_ne!(base, chal(&PedersenParameters::from_generators(*q.h(), *p.gs())), "STANDIN pedersen parameters challenge: h does not enter the challenge (N = {})", N);
